@@ -4,6 +4,7 @@ import (
 	"bytes"
 	"fmt"
 	"unicode"
+	"unicode/utf8"
 
 	"github.com/cloudspannerecosystem/memefish/char"
 )
@@ -74,7 +75,14 @@ func QuoteSQLIdent(s string) string {
 }
 
 func quoteSQLStringContent(s string, quote rune, buf *bytes.Buffer) {
-	for _, r := range s {
+	for i, r := range s {
+		if r == utf8.RuneError {
+			if _, size := utf8.DecodeRuneInString(s[i:]); size == 1 {
+				// An invalid UTF-8 byte is not U+FFFD: keep the byte itself.
+				fmt.Fprintf(buf, `\x%02x`, s[i])
+				continue
+			}
+		}
 		q := quoteSingleEscape(r, quote /* isString */, true)
 		if q != "" {
 			buf.WriteString(q)
